@@ -363,6 +363,22 @@ def main():
                     save(st)
                     print(k, len(todo), flush=True)
         save(st)
+    elif cmd == 'recheck':
+        # re-run the checks (current checker) on mutants already classified: survivors by default, --quiet for every
+        # mutant no check flagged, --all for everything; digest / suite results are kept
+        if '--all' in sys.argv:
+            todo = [byid[i] for i in st if i in byid]
+        elif '--quiet' in sys.argv:
+            todo = [byid[i] for i, s in st.items() if not any(v['exit'] == 1 for v in s['checks'].values()) and i in byid]
+        else:
+            todo = [byid[i] for i, s in st.items() if not s['checks'] and s.get('digest') and s.get('suite') and i in byid]
+        with ProcessPoolExecutor(max_workers=12) as pool:
+            for k, (mid, res) in enumerate(pool.map(p1, todo)):
+                st[mid]['checks'] = res
+                if k % 50 == 0:
+                    save(st)
+                    print(k, len(todo), flush=True)
+        save(st)
     elif cmd == 'report':
         tot = len(st)
         flagged = sum(1 for s in st.values() if any(v['exit'] == 1 for v in s['checks'].values()))
